@@ -3,7 +3,7 @@
     the tokens of the substitute targets (used by C09: Proofs/Frames.v). *)
 From Coq Require Import List NArith String Bool Lia.
 From V Require Import Base.Strings Base.Result Model.Registry Model.Settings Model.Subst
-  Model.TypePath Model.Derives Model.Generate Model.Emit Model.Switches.
+  Model.TypePath Model.Derives Model.Generate Model.Emit Model.Switches Model.Inputs.
 From V Require Import Proofs.TpMap.
 Import ListNotations.
 Open Scope string_scope. Open Scope list_scope.
@@ -290,16 +290,6 @@ Lemma print_spath_fixed phi sp :
 Proof. apply sm_map_fixed. Qed.
 
 (** * Part 2: path resolution commutes with the renaming *)
-
-Definition resolve_frame (phi : string -> string) (r : registry) (s1 s2 : settings) : Prop :=
-  phi_ok phi false false /\
-  s_subs s2 = s_subs s1 /\
-  s_root s2 = phi (s_root s1) /\
-  alloc_tokens (s_alloc s2) = map phi (alloc_tokens (s_alloc s1)) /\
-  s_compact s2 = option_map (map phi) (s_compact s1) /\
-  s_bits s2 = option_map (map phi) (s_bits s1) /\
-  (forall e seg, In e r -> In seg (t_path (snd e)) -> phi seg = seg) /\
-  (forall k v x, In (k, v) (s_subs s1) -> In x (print_spath (su_path v)) -> phi x = x).
 
 (** ** small helpers (own copies, prefix [sm_]) *)
 Lemma sm_lit phi w :
